@@ -1,7 +1,7 @@
 (* C01 — a vector behaves like a plain sequence of tuples under any operation history.
    Statements only; the proofs are in Refine.v. *)
 From Coq Require Import ZArith Lia List Bool.
-From Cntgs Require Import Base Layout Mem Vector Spec Rep Refine.
+From Cntgs Require Import Base Layout Mem Vector Spec Rep Refine NtRefine.
 Import ListNotations.
 Local Open Scope Z_scope.
 
@@ -74,3 +74,31 @@ Proof.
   - cbn. repeat (split; try lia; try (repeat constructor)); discriminate.
   - vm_compute. split; reflexivity.
 Qed.
+
+(* ... and for EVERY well-formed parameter list, NON-trivial value types included
+   (NtRefine.v): destruction scribbles over the destroyed objects only (pop_back, clear,
+   erase(first, end())), relocation through copy / move constructors on reserve reproduces
+   every byte (objects are visited in increasing address order, the moved-from bytes left in
+   the source lie behind the cursor).  The only operation not covered for non-trivial lists
+   is erase() with elements behind the erased ones (nt_ok): it re-emplaces every following
+   element and is the recorded known finding erase-nontrivial-overlap. *)
+Theorem C01_refinement_every_list : forall L cap budget fixed aid junk bid tbid h,
+  wf_plist L = true -> 0 <= cap -> Forall (fun c => 0 <= c) fixed ->
+  let v0 := fst (mkvec L cap budget fixed aid junk bid tbid) in
+  let s0 := {| s_cap := cap; s_elems := [] |} in
+  shist_valid L (fixed_counts L fixed) s0 h -> nt_hist_ok L s0 h ->
+  let v := vrun L junk v0 h in
+  let s := srun s0 h in
+  vsize L v = Z.of_nat (length (s_elems s)) /\
+  v_cap v = s_cap s /\
+  forall i, (i < length (s_elems s))%nat ->
+    read_elem L (v_fixed v) (v_mem v) (eaddr L v (Z.of_nat i)) = nth i (s_elems s) [].
+Proof. exact refinement_every_list. Qed.
+Print Assumptions C01_refinement_every_list.
+
+Theorem C01_step_every_list : forall L, wf_plist L = true -> forall junk v s o,
+  Rep L v (s_elems s) -> v_cap v = s_cap s -> svalid L (fixed_counts L (v_fixed v)) s o -> nt_ok L s o ->
+  Rep L (vstep L junk v o) (s_elems (sstep s o)) /\ v_cap (vstep L junk v o) = s_cap (sstep s o) /\
+  v_fixed (vstep L junk v o) = v_fixed v.
+Proof. exact vstep_rep_nt. Qed.
+Print Assumptions C01_step_every_list.
